@@ -1019,6 +1019,57 @@ static void do_abandoned_pattern(State& S) {
   }
 }
 
+// heap tags: a thread terminates with live blocks in a tagged heap of its own while this thread owns a DESTROYABLE heap with the same tag; this thread then adopts
+// the abandoned pages (forced collect in the main thread, reclaim when a fresh segment is needed) and destroys its tagged heap: only the blocks allocated in that
+// heap may die, the adopted blocks of the terminated thread must stay valid and must not be handed out again
+static void do_tagged_destroy_pattern(State& S) {
+  const int tag = 1 + (int)below(S, 6);
+  vf_cur_what = "tagged heap pattern";
+  mi_heap_t* D = mi_heap_new_ex(tag, true /* allow destroy */, (mi_arena_id_t)0 /* no arena */);
+  if (D == nullptr) return;
+  HeapEnt he; he.h = D; he.alive = true; S.heaps.push_back(he);
+  const int dhi = (int)S.heaps.size() - 1;
+  // own blocks of D (not entered into the shadow model as live beyond this function: they die with the destroy)
+  std::vector<vf::Blk*> own;
+  const size_t cls = (chance(S, 1, 2) ? 16 + (size_t)below(S, 200) : 500 + (size_t)below(S, 6000));
+  for (int i = 0; i < 24; i++) { void* p = mi_heap_malloc(D, cls); if (p) { vf::Blk* b = accept_block(S, p, cls, dhi, 0, 0, false, EP_heap_malloc); if (b) own.push_back(b); } }
+  std::vector<ThreadBlock> out;
+  const size_t cnt = 8 + (size_t)below(S, 120);
+  const bool destroyable_there = chance(S, 1, 2);
+  try {
+    std::thread t([&]() {
+      mi_heap_t* T = mi_heap_new_ex(tag, destroyable_there, (mi_arena_id_t)0);
+      if (T == nullptr) return;
+      for (size_t i = 0; i < cnt; i++) { void* p = mi_heap_malloc(T, cls); if (p) { ThreadBlock tb; tb.p = p; tb.n = cls; tb.zero = false; out.push_back(tb); } }
+    });
+    t.join();
+  } catch (const std::system_error& e) { vf_trip("harness", "", "cannot create a thread: %s", e.what()); }
+  std::vector<vf::Blk*> theirs;
+  for (auto& tb : out) { vf::Blk* b = accept_foreign(S, tb.p, tb.n); if (b) theirs.push_back(b); }
+  S.n_thread_exits++;
+  // adoption: a forced collect in the main thread adopts everything abandoned; an allocation that needs a fresh segment may adopt too
+  if (chance(S, 1, 2)) { vf::Blk* big = do_alloc(S, EP_malloc, 3 * 1024 * KiB + (size_t)below(S, 4096 * KiB)); if (big) do_free(S, big); }
+  if (chance(S, 1, 2) && !theirs.empty()) { vf::Blk* x = theirs.back(); theirs.pop_back(); forget_foreign(S, x); do_free(S, x); }      // reclaim-on-free (when enabled)
+  // (always, and before the destroy: a page with this tag that is adopted when no heap with the tag exists any more is reported as an error by design)
+  // (mi_collect works on the default heap, which need not be the backing heap in this profile: only a forced collect of the backing heap in the main thread adopts)
+  vf_cur_what = "collect (adopts abandoned pages)"; mi_heap_collect(mi_heap_get_backing(), true);
+  // destroy D: exactly its own blocks die
+  for (vf::Blk* b : own) { S.sm.verify(b, "before heap_destroy (tagged)"); S.sm.remove(b); }
+  vf_cur_what = "heap_destroy (tagged)";
+  mi_heap_destroy(D);
+  S.heaps[dhi].alive = false;
+  S.n_heap_destroy++;
+  check_errors(S, "heap_destroy (tagged)");
+  for (vf::Blk* b : theirs) S.sm.verify(b, "block of a terminated thread after mi_heap_destroy of a heap with the same tag", SIZE_MAX, "C10,C09");
+  // blocks released by a wrong destroy would be handed out again here: the shadow model's overlap oracle sees it
+  std::vector<vf::Blk*> probe;
+  for (int i = 0; i < 200; i++) { vf::Blk* b = do_alloc(S, EP_malloc, cls); if (b) probe.push_back(b); }
+  for (vf::Blk* b : theirs) S.sm.verify(b, "block of a terminated thread after re-allocation of its size class", SIZE_MAX, "C10,C09");
+  for (vf::Blk* b : probe) do_free(S, b);
+  for (vf::Blk* b : theirs) { forget_foreign(S, b); do_free(S, b); }
+  hmix(S, 0xE700 + (uint64_t)tag);
+}
+
 // ------------------------------------------------------------------------------------------------
 // purge range callback (C13): a purge / decommit must never intersect a live block
 // ------------------------------------------------------------------------------------------------
@@ -1136,6 +1187,7 @@ void history_step(State& S) {
 
   if (walkprof && (S.op_index % 160) == 80) do_walk_pattern(S);
   if (walkprof && S.cfg.threads && S.cfg.abandon_ok && (S.op_index % 400) == 200) do_abandoned_pattern(S);
+  if (S.cfg.profile == "heaps" && S.cfg.threads && !S.cfg.abandon_ok && (S.op_index % 500) == 250) do_tagged_destroy_pattern(S);
   if (S.cfg.trace >= 2 && S.foreign_live == 0) check_conservation(S, "paranoid", "C12");
   if ((S.op_index & 255) == 255) check_conservation(S, "periodic", walkprof ? "C12" : "C12,C05,C10");
   if ((S.op_index & 511) == 511) { vf_cur_what = "verify_all"; S.sm.verify_all("periodic verification"); }
